@@ -40,6 +40,17 @@ def header_lines():
         H.append(("prefix-%d" % k, [full[:k]]))
     for k in (1, 5, 12, 13, 14):
         H.append(("upper-prefix-%d" % k, [full.upper()[:k]]))
+    # small grammar of the boundary parameter, all combinations: separator spelling x value (empty, blanks, quotes in every
+    # arrangement, one character) x trailing blanks x line end.  Value-dependent slips of the extraction code (trimming
+    # with nothing left to trim, a quote as the only character, a blank as the whole value) live here.
+    pre = b"Content-Type: multipart/byteranges; boundary"
+    seps = [b"=", b" =", b"= ", b" = ", b"=\t"]
+    vals = [b"", b" ", b"  ", b"x", b"x ", b" x", b'"', b'""', b'" "', b'"x"', b'"x', b'x"', b'" x "', b'"x" ', b"'", b"''", b"\t", b";", b"x;", b'"";']
+    eols = [b"\r\n", b"\n", b"", b" \r\n"]
+    for si, sp in enumerate(seps):
+        for vi, v in enumerate(vals):
+            for ei, e in enumerate(eols):
+                H.append(("grammar-s%d-v%d-e%d" % (si, vi, ei), [pre + sp + v + e]))
     return H
 
 
@@ -221,8 +232,10 @@ def run(ctx):
         good = Resp(b, rr).render()
         # header lines x {well-formed body for the good boundary, body using the announced text as boundary}
         for hname, hl in H:
-            for cuts in ("-", "all1"):
+            for cuts in (("-",) if hname.startswith("grammar-") else ("-", "all1")):
                 items2.append(("hdr=%s body=well-formed" % hname, "header-line", hl, good, cuts))
+            if hname.startswith("grammar-"):
+                continue
             announced = hl[-1].split(b"boundary=")[-1].rstrip(b"\r\n").strip(b'"') if hl and b"boundary=" in hl[-1] else None
             if announced and len(announced) < 2000 and b"\0" not in announced:
                 items2.append(("hdr=%s body=uses-announced-boundary" % hname, "header-line", hl, Resp(b, rr, announced.decode("latin1")).render(), "-"))
